@@ -233,9 +233,15 @@ def run(ctx):
         SC.merge_cov(ctx, m, "failing-input-search")
         all_fails += m["fails"]
     SC.report_failures(ctx, "C11", all_fails)
+    # floating-point values: feasible, pairwise distinct AS VALUES (+0 / -0 are two, NaN is one), complete
+    from lib import solver_fpenum
+    solver_fpenum.run(ctx, "C11", ["Solver", "SolverCacheless"])
     ctx.assumptions += ["Z3 answers exactly when it answers (OracleExact)", "no give-up in this property (C17 covers them)",
                         "hash-consing identifies equal ASTs only (C06)"]
 
 
 def replay(ctx, obj):
+    if obj["replay"].get("kind") == "fpenum":
+        from lib import solver_fpenum
+        return solver_fpenum.replay("C11", obj["replay"])
     return SC.replay_history("C11", obj)
